@@ -31,6 +31,16 @@ Alphabet == <<
   [e |-> "Gen", fr |-> 512], [e |-> "Gen", fr |-> 4000],
   [e |-> "CC", ch |-> 0, n |-> 65, v |-> 127], [e |-> "CC", ch |-> 0, n |-> 5, v |-> 1] >>
 
+\* Alphabet of the input dimension "short percussion hits" (C05: 30 ms minimum life of drum notes): two drum keys on
+\* channel 9, Gen steps of 5 / 15 / 31.7 ms (sums never hit the 30 ms boundary exactly), channel 0 turned into an XG drum
+\* channel by bank MSB 127.  A configuration selects it with  CONSTANT Alphabet <- DrumAlphabet  (lib/gen_synth.py
+\* MC_DRUM_ALPHABET lists the same commands in the same order).
+DrumAlphabet == <<
+  [e |-> "NoteOn", ch |-> 9, k |-> 35, v |-> 100], [e |-> "NoteOff", ch |-> 9, k |-> 35],
+  [e |-> "NoteOn", ch |-> 9, k |-> 36, v |-> 100], [e |-> "NoteOff", ch |-> 9, k |-> 36],
+  [e |-> "Gen", fr |-> 220], [e |-> "Gen", fr |-> 660], [e |-> "Gen", fr |-> 1400],
+  [e |-> "CC", ch |-> 0, n |-> 0, v |-> 127], [e |-> "NoteOn", ch |-> 0, k |-> 35, v |-> 100], [e |-> "NoteOff", ch |-> 0, k |-> 35] >>
+
 Init ==
   /\ S = Init0(Chans, NC, NC, Bl, 44100, ArpOn, IF AllocMode = 3 THEN -1 ELSE AllocMode, 0)
   /\ h = RefInit({0, 9}, Bl, NC, 0)
